@@ -55,8 +55,8 @@ theorem Inv_hangup (s : State) (c : Conn) (hI : Inv s) (hnb : (s.conns c).blocke
     simp [setConn, hne]
 
 theorem Inv_reap (s : State) (c : Conn) (hI : Inv s) (hnb : (s.conns c).blocked = none) :
-    Inv { (setConn s c fun cs => { cs with gone := true }) with
-          registry := (setConn s c fun cs => { cs with gone := true }).registry.filter fun x => x.2.conn != c } := by
+    Inv { (setConn s c fun cs => { cs with gone := true, blocked := none }) with
+          registry := (setConn s c fun cs => { cs with gone := true, blocked := none }).registry.filter fun x => x.2.conn != c } := by
   have hfil : (s.registry.filter fun x => x.2.conn != c) = s.registry := by
     apply List.filter_eq_self.mpr
     intro x hx
@@ -66,7 +66,9 @@ theorem Inv_reap (s : State) (c : Conn) (hI : Inv s) (hnb : (s.conns c).blocked 
   rw [setConn_registry, hfil]
   refine hI.same (fun _ _ h => h) (fun _ h => .inl h) (List.Perm.refl _) ?_ ?_ hI.counts hI.lost
   · intro c'
-    simp only [setConn]; split <;> rfl
+    simp only [setConn]; split
+    · next h => subst h; exact hnb.symm
+    · rfl
   · intro c' hc'
     have hne : c' ≠ c := fun e => hc' (e ▸ hnb)
     simp [setConn, hne]
@@ -85,7 +87,8 @@ theorem Inv_step (q : Quirks) (s : State) (e : Event) (hI : Inv s) (hok : eventO
     split
     · next hcr =>
       simp only [hcr, if_true] at hok
-      exact Inv_foldl_topCmd q now c cmds s hI (Open_of_canRun hcr) hok
+      exact Inv_runBatch q now c _ _ (Inv_setConn_tx hI c _ (fun _ => ⟨rfl, rfl, rfl⟩))
+        (Open_setConn_tx (Open_of_canRun hcr) c _ (fun _ => ⟨rfl, rfl, rfl⟩)) hok
     · exact hI
   | timeouts now => exact Inv_iter (Inv_expireOne now) _ _ hI
   | hangup c =>
@@ -98,8 +101,15 @@ theorem Inv_step (q : Quirks) (s : State) (e : Event) (hI : Inv s) (hok : eventO
     simp only [step]
     split
     · next hc =>
-      simp only [Bool.and_eq_true, Option.isNone_iff_eq_none] at hc
-      exact Inv_reap s c hI hc.2
+      simp only [Bool.and_eq_true] at hc
+      have hpc : (s.conns c).peerClosed = true := hc.1.2
+      have hnb : (s.conns c).blocked = none := by
+        cases hb : (s.conns c).blocked with
+        | none => rfl
+        | some b =>
+          have := (hI.alive c (by rw [hb]; simp)).2.2
+          rw [hpc] at this; cases this
+      exact Inv_reap s c hI hnb
     · exact hI
 
 theorem Inv_runFrom (q : Quirks) (evs : List Event) :
